@@ -61,7 +61,18 @@ func (s *signer) Unmarshal(bytes []byte) error {
 		return fmt.Errorf("cannot unmarshal signer: [%w]", err)
 	}
 
+	if pbSigner.Wallet == nil {
+		return fmt.Errorf("cannot unmarshal signer: missing wallet")
+	}
+
+	if err := validateMemberIndex(pbSigner.SigningGroupMemberIndex); err != nil {
+		return err
+	}
+
 	walletPublicKey := unmarshalPublicKey(pbSigner.Wallet.PublicKey)
+	if walletPublicKey.X == nil || walletPublicKey.Y == nil {
+		return fmt.Errorf("cannot unmarshal signer: invalid wallet public key")
+	}
 
 	walletSigningGroupOperators := make(
 		[]chain.Address,
@@ -352,7 +363,7 @@ func (dsp *DepositSweepProposal) Unmarshal(bytes []byte) error {
 
 	depositsRevealBlocks := make([]*big.Int, len(pbMsg.DepositsRevealBlocks))
 	for i, block := range pbMsg.DepositsRevealBlocks {
-		depositsRevealBlocks[i] = big.NewInt(int64(block))
+		depositsRevealBlocks[i] = new(big.Int).SetUint64(block)
 	}
 
 	dsp.DepositsKeys = depositsKeys
